@@ -25,7 +25,7 @@ def run(tier, seed):
     d = vlib.scratch("c03-")
     stats = {}
     tf = d / "udp.ndjson"
-    n, users, pings, burst = (6, 4, 20, 60) if tier == "quick" else (24, 5, 40, 120)
+    n, users, pings, burst = (6, 4, 20, 60) if tier == "quick" else (16, 4, 30, 80)
     p = vlib.run_driver(drv, ["udp", "-seed", seed, "-n", n, "-users", users, "-pings", pings, "-burst", burst, "-out", tf], timeout=3000)
     sc.parse_stats(p.stdout, stats)
     evs = vlib.read_ndjson(tf)
